@@ -19,7 +19,7 @@ Section C05.
 
   (* ---- the invariant is inductive over every event, every choice of the implementation ---- *)
   Theorem C05_inv_init st now bl budget : Inv Store cfg (init_state Store st now bl budget).
-  Proof. exact (inv_init Store w_put w_get cfg st now bl budget). Qed.
+  Proof. exact (inv_init Store cfg st now bl budget). Qed.
 
   Theorem C05_inv_step s e ch s' out :
     wf_cfg cfg -> Inv Store cfg s -> wf_event e -> step s e ch = SR Store s' out -> Inv Store cfg s'.
